@@ -68,27 +68,28 @@ void *dlopen(const char *name, int flags)
 int dlclose(void *h) { (void)h; return 0; }
 char *dlerror(void) { return NULL; }
 
+/* plug-in entry points: weak, so unit-level harnesses that link only part of the library still link natively */
 /* builtin rs_vand plug-in */
-extern void init_liberasurecode_rs_vand(int, int);
-extern void deinit_liberasurecode_rs_vand(void);
-extern int *make_systematic_matrix(int, int);
-extern void free_systematic_matrix(int *);
-extern int liberasurecode_rs_vand_encode(int *, char **, char **, int, int, int);
-extern int liberasurecode_rs_vand_decode(int *, char **, char **, int, int, int *, int, int);
-extern int liberasurecode_rs_vand_reconstruct(int *, char **, char **, int, int, int *, int, int);
+extern __attribute__((weak)) void init_liberasurecode_rs_vand(int, int);
+extern __attribute__((weak)) void deinit_liberasurecode_rs_vand(void);
+extern __attribute__((weak)) int *make_systematic_matrix(int, int);
+extern __attribute__((weak)) void free_systematic_matrix(int *);
+extern __attribute__((weak)) int liberasurecode_rs_vand_encode(int *, char **, char **, int, int, int);
+extern __attribute__((weak)) int liberasurecode_rs_vand_decode(int *, char **, char **, int, int, int *, int, int);
+extern __attribute__((weak)) int liberasurecode_rs_vand_reconstruct(int *, char **, char **, int, int, int *, int, int);
 /* null plug-in */
-extern void *null_code_init(int, int, int);
-extern int null_code_encode(void *, char **, char **, int);
-extern int null_code_decode(void *, char **, char **, int *, int, int);
-extern int null_reconstruct(char **, int, uint64_t, int, char *);
-extern int null_code_fragments_needed(void *, int *, int *);
+extern __attribute__((weak)) void *null_code_init(int, int, int);
+extern __attribute__((weak)) int null_code_encode(void *, char **, char **, int);
+extern __attribute__((weak)) int null_code_decode(void *, char **, char **, int *, int, int);
+extern __attribute__((weak)) int null_reconstruct(char **, int, uint64_t, int, char *);
+extern __attribute__((weak)) int null_code_fragments_needed(void *, int *, int *);
 /* clean-room ISA-L primitives (model/gf8.c) */
-extern void ec_encode_data(int, int, int, unsigned char *, unsigned char **, unsigned char **);
-extern void ec_init_tables(int, int, unsigned char *, unsigned char *);
-extern void gf_gen_rs_matrix(unsigned char *, int, int);
-extern void gf_gen_cauchy1_matrix(unsigned char *, int, int);
-extern int gf_invert_matrix(unsigned char *, unsigned char *, const int);
-extern unsigned char gf_mul(unsigned char, unsigned char);
+extern __attribute__((weak)) void ec_encode_data(int, int, int, unsigned char *, unsigned char **, unsigned char **);
+extern __attribute__((weak)) void ec_init_tables(int, int, unsigned char *, unsigned char *);
+extern __attribute__((weak)) void gf_gen_rs_matrix(unsigned char *, int, int);
+extern __attribute__((weak)) void gf_gen_cauchy1_matrix(unsigned char *, int, int);
+extern __attribute__((weak)) int gf_invert_matrix(unsigned char *, unsigned char *, const int);
+extern __attribute__((weak)) unsigned char gf_mul(unsigned char, unsigned char);
 
 #define SYM(n) if (strcmp(name, #n) == 0) return (void *)n
 void *dlsym(void *h, const char *name)
